@@ -9,6 +9,7 @@ import (
 	"errors"
 	"fmt"
 	"math"
+	"regexp"
 	"sort"
 	"strconv"
 	"strings"
@@ -54,6 +55,8 @@ func convert(v any, pt string) (any, convStatus) {
 			return strconv.Itoa(x), convOK
 		case int64:
 			return strconv.FormatInt(x, 10), convOK
+		case uint:
+			return strconv.FormatUint(uint64(x), 10), convOK
 		case float64:
 			// "decimal text": asserted only where it is unambiguous: a fractional value whose
 			// plain and shortest notations coincide (10.0 -> "10" or "10.0"? 1e21?)
@@ -63,31 +66,49 @@ func convert(v any, pt string) (any, convStatus) {
 			return nil, convUnspecified
 		}
 		return nil, convUnspecified // bool, nil, containers -> string: not documented
-	case "int", "int64", "float64":
+	case "int", "int64", "uint", "float64":
 		switch x := v.(type) {
 		case int:
+			if pt == "uint" && x < 0 {
+				return nil, convUnspecified
+			}
 			return numTo(float64(x), int64(x), pt), convOK
 		case int64:
+			if pt == "uint" && x < 0 {
+				return nil, convUnspecified
+			}
 			return numTo(float64(x), x, pt), convOK
+		case uint:
+			return numTo(float64(x), int64(x), pt), convOK
 		case float64:
 			if pt == "float64" {
 				return x, convOK
 			}
 			return nil, convUnspecified // float -> integer (truncation? rounding?)
 		case string:
+			// the documented conversion is decimal text ('string "42" to int 42'): leading zeros
+			// are decimal ("010" is ten); anything a base-10 parse rejects cannot be converted
 			if pt == "float64" {
-				if f, err := strconv.ParseFloat(x, 64); err == nil {
+				if decNum.MatchString(x) {
+					f, _ := strconv.ParseFloat(x, 64)
 					return f, convOK
 				}
-				return nil, convImpossible
+				if _, err := strconv.ParseFloat(x, 64); err != nil {
+					return nil, convImpossible
+				}
+				return nil, convUnspecified // "1_000", "inf", hexadecimal floats
 			}
-			if n, err := strconv.ParseInt(x, 10, 64); err == nil {
+			if decInt.MatchString(x) {
+				n, err := strconv.ParseInt(x, 10, 64)
+				if err != nil || (pt == "uint" && n < 0) {
+					return nil, convUnspecified
+				}
 				return numTo(float64(n), n, pt), convOK
 			}
-			if _, err := strconv.ParseFloat(x, 64); err == nil {
-				return nil, convUnspecified // "2.5" -> int
+			if decNum.MatchString(x) {
+				return nil, convUnspecified // "2.5", "1e3" -> integer
 			}
-			return nil, convImpossible
+			return nil, convImpossible // "abc", "0x10", "1_000", " 42", ""
 		case bool, nil:
 			return nil, convUnspecified
 		}
@@ -96,7 +117,7 @@ func convert(v any, pt string) (any, convStatus) {
 		switch x := v.(type) {
 		case bool:
 			return x, convOK
-		case string, int, int64, float64, nil:
+		case string, int, int64, uint, float64, nil:
 			return nil, convUnspecified
 		}
 		return nil, convImpossible // containers -> bool
@@ -104,8 +125,15 @@ func convert(v any, pt string) (any, convStatus) {
 	return nil, convUnspecified
 }
 
+var (
+	decInt = regexp.MustCompile(`^[+-]?[0-9]+$`)
+	decNum = regexp.MustCompile(`^[+-]?([0-9]+(\.[0-9]*)?|\.[0-9]+)([eE][+-]?[0-9]+)?$`)
+)
+
 func numTo(f float64, n int64, pt string) any {
 	switch pt {
+	case "uint":
+		return uint(n)
 	case "int":
 		return int(n)
 	case "int64":
@@ -153,7 +181,7 @@ func isStr(v any) bool { _, ok := v.(string); return ok }
 
 func isScalar(v any) bool {
 	switch v.(type) {
-	case string, int, int64, float64, bool:
+	case string, int, int64, uint, float64, bool:
 		return true
 	}
 	return false
@@ -226,8 +254,12 @@ func init() {
 			return nil, fmt.Errorf("model: len of %T", in[0])
 		}})
 	reg(&fnSpec{name: "int", params: []string{"any"}, builtin: true, shared: true,
-		accepts: func(v any) bool { _, st := convert(v, "int"); return st == convOK },
-		call:    func(in []any) (any, error) { v, _ := convert(in[0], "int"); return v, nil }})
+		accepts: func(v any) bool { // unsigned input: not documented (today: 0), not asserted
+			_, isU := v.(uint)
+			_, st := convert(v, "int")
+			return st == convOK && !isU
+		},
+		call: func(in []any) (any, error) { v, _ := convert(in[0], "int"); return v, nil }})
 	reg(&fnSpec{name: "string", params: []string{"any"}, builtin: true, shared: true,
 		accepts: func(v any) bool { _, st := convert(v, "string"); _, isB := v.(bool); return st == convOK || isB },
 		call:    func(in []any) (any, error) { return fmt.Sprint(in[0]), nil }})
@@ -256,6 +288,9 @@ func init() {
 	reg(&fnSpec{name: "dbl64", params: []string{"int64"},
 		impl: func(n int64) int64 { return 2 * n },
 		call: func(in []any) (any, error) { return 2 * in[0].(int64), nil }})
+	reg(&fnSpec{name: "udbl", params: []string{"uint"},
+		impl: func(n uint) uint { return 2 * n },
+		call: func(in []any) (any, error) { return 2 * in[0].(uint), nil }})
 	reg(&fnSpec{name: "half", params: []string{"float64"},
 		impl: func(f float64) float64 { return f / 2 },
 		call: func(in []any) (any, error) { return in[0].(float64) / 2, nil }})
